@@ -34,8 +34,22 @@ def group_rule(ctx, rid, regex, what, floor):
     return n
 
 
+def r_grammar_words(ctx, rid):
+    ctx.rule(rid, 'reserved words are recognisable: inside a guarded keyword choice no earlier literal is a proper prefix of a later one (PEG ordered choice would commit to the shorter word and fail on the guard)')
+    from ..grammar import Grammar
+    g = Grammar(ctx.facts().grammar)
+    n, bad = g.prefix_shadowing()
+    sh = [x for x in bad if x[3]]
+    ctx.ob(rid, 'prefix-shadowing', not sh, '%d guarded keyword choices checked; shadowed words: %s' % (n, [(x[0], x[1], x[2]) for x in sh]), 'src/minimal.pest')
+    ctx.floor(rid, 'guarded keyword choices', n, 3)
+    ctx.ob(rid, 'selftest', bool(Grammar([{'name': 'k', 'ty': 'atomic', 'e': {'k': 'seq', 'a': {'k': 'choice', 'a': {'k': 'str', 'v': 'Ge'}, 'b': {'k': 'str', 'v': 'Gej'}}, 'b': {'k': 'neg', 'e': {'k': 'ident', 'v': 'ASCII_ALPHANUMERIC'}}}}]).prefix_shadowing()[1]), 'the rule reports `("Ge" | "Gej") ~ !ALNUM`')
+
+
 def check(ctx):
     n, f = table_rule(ctx, 'R04.1', lambda p: not EXCLUDE.match(p), 'the front end', guards.GUARD_FIELDS)
+    HELP = re.compile(r'^(types::UIntType::(from_bit_width|bit_width|byte_width)|num::(NonZero)?Pow2Usize::new|value::UIntValue::(u1|u2|u4)|ast::Scope::(get_variable|get_function|is_topmost|resolve)(::\\{closure#\\d+\\})?|types::AliasedType::(resolve|resolve_builtin)(::\\{closure#\\d+\\})?|types::BuiltinAlias::resolve|value::Value::is_of_type)$')
+    table_rule(ctx, 'R04.1h', lambda p: bool(HELP.match(p)), 'predicate helpers of the front end (returned values compared as well)')
+    r_grammar_words(ctx, 'R04.4')
     ctx.floor('R04.1', 'front-end functions with a decision table', f, 55)
     ctx.floor('R04.1', 'decision rows', n, 300)
     from . import c03
